@@ -8,6 +8,7 @@ import (
 	"os/exec"
 	"path/filepath"
 	"regexp"
+	"sort"
 	"strings"
 	"syscall"
 	"testing"
@@ -27,7 +28,7 @@ func marker(s string) {
 	_, _ = syscall.Write(2, []byte("C10-"+s+"\n"))
 }
 
-var c10Strings = []string{"/etc/passwd", "/tmp/c10-probe-file", "../c10-probe", "127.0.0.1:80", "http://127.0.0.1:9/", "sh -c id", "HOME", "TZ", "%s %d %v", "/dev/tcp/127.0.0.1/80", "file:///etc/hosts", "/proc/self/environ", "Europe/Helsinki", "a"}
+var c10Strings = []string{"/etc/passwd", "/tmp/c10-probe-file", "../c10-probe", "127.0.0.1:80", "http://127.0.0.1:9/", "sh -c id", "HOME", "TZ", "%s %d %v", "/dev/tcp/127.0.0.1/80", "file:///etc/hosts", "/proc/self/environ", "Europe/Helsinki", "a", "C10_TOKEN", "C10_TOKEN_FILE", "C10_CMD", "DEBUG"}
 
 func c10Value(kind lang.Kind, i int) lang.Value {
 	s := c10Strings[i%len(c10Strings)]
@@ -50,14 +51,56 @@ func c10Value(kind lang.Kind, i int) lang.Value {
 	return lang.Null()
 }
 
+var c10Env = map[string]string{"C10_TOKEN_FILE": "/etc/hostname", "C10_CONFIG": "/etc/passwd", "C10_URL": "http://127.0.0.1:9/", "C10_CMD": "sh -c id",
+	"C10_DIR": "/tmp", "C10_ADDR": "127.0.0.1:9", "C10_EMPTY": "", "C10_SECRET_PATH": "/etc/hosts", "c10_lower_file": "/etc/hostname"}
+
+// envNames: every name in the environment plus the names derived from them
+// by the usual conventions (suffix added or removed, case changed).
+func envNames() []string {
+	seen := map[string]bool{}
+	var out []string
+	add := func(n string) {
+		if n != "" && !seen[n] && !strings.ContainsAny(n, "\x00\"\\\n") {
+			seen[n] = true
+			out = append(out, n)
+		}
+	}
+	sufs := []string{"_FILE", "_PATH", "_DIR", "_URL", "_CMD", "_file", "FILE", "_ADDR"}
+	env := os.Environ()
+	sort.Strings(env)
+	for _, kv := range env {
+		n := strings.SplitN(kv, "=", 2)[0]
+		add(n)
+		for _, sf := range sufs {
+			if strings.HasSuffix(n, sf) {
+				add(strings.TrimSuffix(n, sf))
+			}
+			add(n + sf)
+		}
+		add(strings.ToLower(n))
+		add(strings.ToUpper(n))
+	}
+	return out
+}
+
 // TestC10Worker is run under strace by TestC10. Everything between the
 // BEGIN and END markers is script execution with only the built-ins.
 func TestC10Worker(t *testing.T) {
 	if os.Getenv("VERIF_C10_WORKER") == "" {
 		t.Skip("worker only")
 	}
+	// standard output itself goes to /dev/null, so that inside the audited
+	// window every write can be attributed by its descriptor: 1 is standard
+	// output, 2 carries the markers, anything else is not allowed
 	devnull, _ := os.OpenFile(os.DevNull, os.O_WRONLY, 0)
-	os.Stdout = devnull
+	if err := syscall.Dup3(int(devnull.Fd()), 1, 0); err != nil {
+		t.Fatalf("INFRA: dup3: %v", err)
+	}
+	// the kind of settings a deployment hands over in its environment;
+	// reading them is allowed, following them is not
+	for k, v := range c10Env {
+		os.Setenv(k, v)
+	}
 	probe := evalfilter.New("return 1;")
 	_ = probe.Prepare()
 	names := probe.VerifFunctionNames()
@@ -127,6 +170,29 @@ func TestC10Worker(t *testing.T) {
 	}
 	os.Unsetenv("TZ")
 	marker("END zones")
+	// the environment: every name present and every name the usual
+	// conventions derive from one (NAME_FILE -> NAME, NAME -> NAME_PATH, ...)
+	marker("BEGIN environment")
+	for i, n := range envNames() {
+		if i%50 == 0 {
+			marker(fmt.Sprintf("CALL getenv %d", i))
+		}
+		run("return getenv(\""+n+"\");", nil, nil)
+		run("x = getenv(N); return len(x) + len(getenv(N + \"_FILE\"));", map[string]lang.Value{"N": lang.Str(n)}, nil)
+	}
+	marker("END environment")
+	// the variables the library itself gives a meaning to
+	marker("BEGIN switches")
+	for i, script := range []string{"return 1 + 2 * 3;", "function f(a) { local b; b = a * 2; return b; } x = f(3); print(x); return x > 1;", "foreach k, v in {\"a\": 1} { printf(\"%s\", k); } return Name ~= /pass/;",
+		"if ( 1 + 1 == 2 ) { return sprintf(\"%d\", 3); } return false;", "return 7 % 0;"} {
+		marker(fmt.Sprintf("CALL switches %d", i))
+		for _, dbg := range []lang.Value{lang.Bool(true), lang.Bool(false), lang.Str("/tmp/c10-probe-file"), lang.Int(1)} {
+			for _, opt := range []lang.Value{lang.Bool(true), lang.Bool(false), lang.Str("/tmp/c10-probe-file")} {
+				run(script, map[string]lang.Value{"DEBUG": dbg, "OPTIMIZE": opt}, map[string]interface{}{"Name": "/etc/passwd"})
+			}
+		}
+	}
+	marker("END switches")
 	// run-time faults, including Go run-time panics that Execute recovers
 	marker("BEGIN faults")
 	for i, script := range []string{"return 7 % 0;", "a = 7; b = len(\"\"); return a % b;", "return 1.5 % 0.2;", "return 1 / 0;", "function f(n) { return n % (n - n); } return f(3);",
@@ -198,7 +264,7 @@ func auditLog(log string, zoneinfo string) (violations []string, inside int, mar
 		} else {
 			continue
 		}
-		if name == "write" && strings.Contains(args, `"C10-`) {
+		if name == "write" && strings.HasPrefix(args, "2") && strings.Contains(args, `"C10-`) {
 			switch {
 			case strings.Contains(args, `"C10-BEGIN`):
 				in = true
@@ -217,6 +283,21 @@ func auditLog(log string, zoneinfo string) (violations []string, inside int, mar
 		inside++
 		bad := ""
 		switch {
+		case name == "write" || name == "pwrite64" || name == "writev":
+			// fd 1 is standard output; the Go run time's own wake-ups go to an
+			// eventfd/pipe it created; everything else is some other channel
+			fd := args
+			if i := strings.IndexAny(fd, ",<"); i >= 0 {
+				fd = fd[:i]
+			}
+			switch {
+			case fd == "1":
+			case strings.Contains(strings.SplitN(args, ",", 2)[0], "anon_inode:"):
+			case fd == "2":
+				bad = "writes to standard error"
+			default:
+				bad = "writes to a descriptor other than standard output"
+			}
 		case name == "open" || name == "openat" || name == "openat2":
 			path := ""
 			if i := strings.Index(args, `"`); i >= 0 {
@@ -274,7 +355,7 @@ func straceWorker(outdir string) (string, error) {
 		return "", fmt.Errorf("INFRA: strace is not installed")
 	}
 	logf := filepath.Join(outdir, fmt.Sprintf("c10.strace.%s.log", shard()))
-	cmd := exec.Command("strace", "-f", "-qq", "-s", "200", "-e", "trace=%file,%network,%process,write", "-o", logf,
+	cmd := exec.Command("strace", "-f", "-qq", "-y", "-s", "200", "-e", "trace=%file,%network,%process,write,pwrite64,writev", "-o", logf,
 		os.Args[0], "-test.run", "^TestC10Worker$", "-test.timeout", "900s")
 	cmd.Env = append(os.Environ(), "VERIF_C10_WORKER=1", "VERIF_C10_KEYS="+logf+".keys")
 	var buf bytes.Buffer
@@ -332,7 +413,7 @@ func init() {
 
 func TestC10(t *testing.T) {
 	defer silenceAs("strace")()
-	col := evid.New("C10", "strace", "a worker process traced with 'strace -f' executes, between BEGIN/END markers, (1) EVERY function registered in the environment (names read through the hook, so a newly registered built-in is covered automatically) with EVERY tuple of argument types up to arity 3 (8+64+512 tuples per function) and values biased to paths, URLs, host:port pairs, commands and environment names, through Execute and Run; (2) the time functions under 8 TZ settings (valid, invalid, path-like, empty); (3) generated programs mixed with print/printf/getenv/now/sprintf/replace/split/match statements; oracle over the syscall log: no open/openat/creat with a write or create flag, no read-only open outside the time-zone database, no unlink/rename/mkdir/rmdir/chmod/truncate/link/chown/utime, no socket/connect/bind/send/recv, no execve/fork/vfork and no clone without CLONE_THREAD; writes to standard output and clock/environment access are allowed; non-trivial = every call (each reached a built-in or ran a program); distinct by (function, argument-type tuple) and program")
+	col := evid.New("C10", "strace", "a worker process traced with 'strace -f' executes, between BEGIN/END markers, (1) EVERY function registered in the environment (names read through the hook, so a newly registered built-in is covered automatically) with EVERY tuple of argument types up to arity 3 (8+64+512 tuples per function) and values biased to paths, URLs, host:port pairs, commands and environment names, through Execute and Run; (2) the time functions under 8 TZ settings (valid, invalid, path-like, empty); (3) generated programs mixed with print/printf/getenv/now/sprintf/replace/split/match statements; oracle over the syscall log: no open/openat/creat with a write or create flag, no read-only open outside the time-zone database, no unlink/rename/mkdir/rmdir/chmod/truncate/link/chown/utime, no socket/connect/bind/send/recv, no execve/fork/vfork and no clone without CLONE_THREAD; (4) getenv of every name in the environment and of every name derived from one by the usual conventions (NAME_FILE -> NAME, NAME -> NAME_PATH, case changes), with path-, URL- and command-valued variables planted; (5) scripts run with the DEBUG and OPTIMIZE variables set to booleans and to path-like strings; inside the window every write must go to descriptor 1 (standard output is /dev/null in the worker), anything written elsewhere (standard error included) is a violation; clock/environment access is allowed; non-trivial = every call (each reached a built-in or ran a program); distinct by (function, argument-type tuple) and program")
 	defer col.Flush()
 	replayKnown(t, col, "C10")
 	c, inside, markers, err := runStrace()
